@@ -205,7 +205,7 @@ def main():
     run.require("setups", "passthrough_checks", "integrality_checks", "total_checks", "zero_amount_entries",
                 "poisson_entries_observed")
     thorough = tier() == "thorough"
-    n_total = 60000 if thorough else 4000
+    n_total = 100000 if thorough else 16000
     cases = [{"seed": seed(), "idx": i} for i in range(n_total)]
     res = pmap("vf.checks.c14:run_case", cases, cpu_budget=15.0, wall_budget=900)
     ville = stats.Ville("poisson-mode mean: sum(count) vs sum(amount)")
